@@ -189,7 +189,7 @@ func TestWorker(t *testing.T) {
 		os.Exit(code)
 	}
 
-	var curIdx int64
+	var curIdxA atomic.Int64
 	// real-time hang monitor (outside any bubble): a run that makes no progress for 60 s of wall time
 	// is stuck somewhere the fake clock cannot see (a non-durable block or a statement-free spin)
 	var beat atomic.Int64
@@ -200,13 +200,13 @@ func TestWorker(t *testing.T) {
 			if b := beat.Load() + progressBeat.Load(); b != last {
 				last, since = b, time.Now()
 			} else if time.Since(since) > 60*time.Second {
-				fmt.Fprintf(os.Stderr, "worker: HANG run=%d: no progress for 60 s of wall time\n", curIdx)
+				fmt.Fprintf(os.Stderr, "worker: HANG run=%d: no progress for 60 s of wall time\n", curIdxA.Load())
 				os.Exit(5)
 			}
 		}
 	}()
 	fatalExit = func(o *Outcome, ch *Choices) {
-		v := &Violation{Property: a.Prop, Class: o.Class, Key: o.Key, Detail: o.Detail, Seed: a.Seed, Run: curIdx, Tier: a.Tier,
+		v := &Violation{Property: a.Prop, Class: o.Class, Key: o.Key, Detail: o.Detail, Seed: a.Seed, Run: curIdxA.Load(), Tier: a.Tier,
 			Extra: map[string]string{"kills": "1"}, Trace: append([]uint64(nil), ch.Trace...), Fp: o.Fingerprint}
 		res.Violation = v
 		res.Outcome = o
@@ -222,7 +222,7 @@ func TestWorker(t *testing.T) {
 		known := loadKnown(a.Known, a.Prop)
 		for j := int64(0); j < a.Count; j++ {
 			idx := a.From + j*a.Stride
-			curIdx = idx
+			curIdxA.Store(idx)
 			beat.Add(1)
 			announce(idx)
 			ch := NewChoices(a.Seed, idx)
@@ -282,7 +282,7 @@ func TestWorker(t *testing.T) {
 		cfg.Tier = v.Tier
 		if a.Mode == "replay" {
 			cfg.Pin = v.Pin
-			curIdx = v.Run
+			curIdxA.Store(v.Run)
 			a.Seed = v.Seed
 			announce(v.Run)
 			ch := ReplayChoices(v.Trace)
